@@ -186,10 +186,28 @@ func decodeTimestamp(s []byte) (time.Time, error) {
 // See copy_reflog_msg in refs.c:
 // https://github.com/git/git/blob/7ff1e8dc1e1680510c96e69965b3fa81372c5037/refs.c#L1026-L1049
 func normalizeMessage(msg string) string {
-	msg = strings.ReplaceAll(msg, "\n", " ")
-	msg = strings.ReplaceAll(msg, "\r", " ")
-	fields := strings.Fields(msg)
-	return strings.Join(fields, " ")
+	// Only the bytes git's isspace() knows are white space here. strings.Fields
+	// would also collapse VT, FF, NBSP and the other Unicode spaces, which git
+	// keeps verbatim.
+	isSpace := func(c byte) bool {
+		return c == ' ' || c == '\t' || c == '\n' || c == '\r'
+	}
+
+	out := make([]byte, 0, len(msg))
+	wasSpace := true
+	for i := 0; i < len(msg); i++ {
+		c := msg[i]
+		space := isSpace(c)
+		if space && wasSpace {
+			continue
+		}
+		wasSpace = space
+		if space {
+			c = ' '
+		}
+		out = append(out, c)
+	}
+	return strings.TrimRight(string(out), " ")
 }
 
 // Encode writes a single reflog entry to the writer.
